@@ -519,3 +519,14 @@ func (r *Run) addViolationDirect(site, what string, in *instance, wrapper string
 		viol: &Violation{Site: site, What: what + " (real circuit: " + short(msg, 100) + ")", Replay: toMap(cr), Outcome: "real circuit (test.IsSolved) rejects the unmodified valid proof"}})
 	r.mu.Unlock()
 }
+
+// addViolationStructural records a violation that is an observation about the real code's
+// execution itself (e.g. a sub-verifier is never called, fewer rounds are checked than configured):
+// the honest proof is still accepted, and a tampered accepting proof cannot be constructed without
+// a forging prover, so there is no accept/reject replay; the artefact is the observation.
+func (r *Run) addViolationStructural(site, what string) {
+	r.mu.Lock()
+	r.done = append(r.done, obResult{ob: &Ob{Name: "structure/" + site, Family: "verifier-structure", Site: site}, res: smt.Result{Status: "concrete", Solver: "-"}, status: "violation",
+		viol: &Violation{Site: site, What: what, Replay: map[string]any{"kind": "vc", "observation": what}, Outcome: "observed while executing the real Verify on the symbolic API (re-run the check to re-derive)"}})
+	r.mu.Unlock()
+}
